@@ -65,6 +65,7 @@ def run(ctx):
     outs = run_model(ops + o3)
     rt.compare_recorded(ctx, ops, meta, outs[:len(ops)], "stratified-model-vs-impl")
     rt.compare_recorded(ctx, o3, m3, outs[len(ops):], "stratified-buffers-refilled-in-place")
+    rt.nan_strat_block(ctx, ctx.n(60, 800))      # NaN-coded non-responders (np.nanmean), Model/Nan.lean
     # documented statistic options on the implementation: mean statistic with more than two conditions, 't'
     from permute import stratified
     for _ in range(ctx.n(60, 600)):
